@@ -73,7 +73,8 @@ func c11Heap(shape string) []gts.Sequence {
 	shared := gts.Joined{gts.Range(1, 3), gts.Range(5, 8)}
 	props := gts.Props{{"note", "n"}, {"gene", "g1", "g2"}}
 	hostF := []gts.Feature{
-		{Key: "source", Loc: gts.Joined{gts.Range(0, 4), gts.Range(4, 10)}, Props: gts.Props{{"organism", "o"}}},
+		{Key: "source", Loc: gts.Joined{gts.PartialRange(0, 4, gts.Partial5), gts.PartialRange(5, 10, gts.Partial3)}, Props: gts.Props{{"organism", "o"}}},
+		{Key: "source", Loc: gts.Ordered{gts.PartialRange(0, 3, gts.PartialBoth), gts.Range(6, 10)}, Props: gts.Props{{"organism", "o2"}}},
 		{Key: "gene", Loc: gts.Range(2, 6), Props: props},
 		{Key: "CDS", Loc: shared, Props: props},
 		{Key: "misc", Loc: gts.Complemented{Location: shared}, Props: gts.Props{{"note", "m"}}},
@@ -109,7 +110,7 @@ func c11Heap(shape string) []gts.Sequence {
 
 func cloneExact(p []byte) []byte { q := make([]byte, len(p)); copy(q, p); return q }
 
-var c11Ops = []string{"insert", "embed", "delete", "erase", "slice", "slice-wrap", "concat", "concat3", "reverse", "rotate", "rotate-neg",
+var c11Ops = []string{"insert", "embed", "delete", "erase", "slice", "slice-whole", "slice-wrap", "concat", "concat3", "reverse", "rotate", "rotate-neg",
 	"complement", "transcribe", "with-info", "with-features", "with-bytes", "with-topology", "repair", "filter", "feature-insert", "locate", "locate-rev", "search", "copy"}
 
 func c11Binary(op string) bool {
@@ -163,6 +164,8 @@ func c11Apply(st c11Step, heap []gts.Sequence) gts.Sequence {
 			return x
 		}
 		return gts.Slice(x, 1, 3)
+	case "slice-whole":
+		return gts.Slice(x, 0, n)
 	case "slice-wrap":
 		if n < 4 {
 			return x
